@@ -49,6 +49,7 @@
 #include <elf.h>
 #include <sys/mman.h>
 #include <sys/stat.h>
+#include <sys/wait.h>
 
 /* ---- kernels under test (no header exists; signatures read from the sources) */
 #define DECL_COMMON(P) \
@@ -607,7 +608,41 @@ static void cap_check(void) {
                      CAP, ci->has_sse41, ci->has_sse42, ci->has_avx, ci->has_avx2, ci->has_avx512f, ci->has_avx512bw, ci->has_avx512vl, ci->has_avx512vbmi);
 }
 
+/* ---- select mode: the kernel the dispatcher selects for EVERY capability set (all 256 subsets of the 8 x86 feature flags), identified by address, never executed:
+ * a kernel of the SSE tier needs sse4.2, one of the AVX2 tier avx2 (the objects are compiled with -mavx2), one of the AVX-512 tier avx512f AND bw AND vl
+ * (compiled with -mavx512f -mavx512bw -mavx512vl); a CPU or hypervisor may report any subset */
+const void* carquet_verif_dispatch_entry(int i);
+static void select_mode(void) {
+    static const char* EN[] = { "prefix_sum_i32", "prefix_sum_i64", "gather_i32", "gather_i64", "gather_float", "gather_double", "byte_split_encode_float", "byte_split_decode_float", "byte_split_encode_double", "byte_split_decode_double",
+                                "unpack_bools", "pack_bools", "find_run_length_i32", "crc32c", "match_copy", "match_length", "count_non_nulls", "build_null_bitmap", "fill_def_levels" };
+    mc_rule("C15 (selection): for each of the 256 subsets of {sse4.1, sse4.2, avx, avx2, avx512f, avx512bw, avx512vl, avx512vbmi} reported by carquet_get_cpu_info (verification hook CARQUET_VERIF_CPU_MASK, one fresh process per subset), "
+            "every entry of the dispatch table is identified by address among the exported kernels; a selected kernel must belong to a tier whose instruction sets are all in the subset. "
+            "The kernels are not executed here (the host has every feature); their results are checked in the direct and dispatch modes.");
+    mc_stage("select.every-capability-subset");
+    for (int mask = 0; mask < 256; mask++) {
+        if (!mc_next()) continue;
+        mc_desc("select:mask=0x%02x (sse41=%d sse42=%d avx=%d avx2=%d avx512f=%d bw=%d vl=%d vbmi=%d)", mask, mask & 1, (mask >> 1) & 1, (mask >> 2) & 1, (mask >> 3) & 1, (mask >> 4) & 1, (mask >> 5) & 1, (mask >> 6) & 1, (mask >> 7) & 1);
+        mc_case_key(mc_mix(0x5e1, (uint64_t)mask)); mc_nontrivial(); mc_feature("dispatch.select");
+        int pfd[2]; if (pipe(pfd)) mc_harness_error("pipe"); pid_t pid = fork(); if (pid < 0) mc_harness_error("fork");
+        if (pid == 0) { close(pfd[0]); char mv[16]; snprintf(mv, sizeof mv, "%x", mask); setenv("CARQUET_VERIF_CPU_MASK", mv, 1); unsetenv("CARQUET_VERIF_CPU_CAP");
+            const carquet_cpu_info_t* ci = carquet_get_cpu_info(); unsigned char rep[32]; memset(rep, 0, sizeof rep);
+            rep[0] = (unsigned char)((ci->has_sse41 ? 1 : 0) | (ci->has_sse42 ? 2 : 0) | (ci->has_avx ? 4 : 0) | (ci->has_avx2 ? 8 : 0) | (ci->has_avx512f ? 16 : 0) | (ci->has_avx512bw ? 32 : 0) | (ci->has_avx512vl ? 64 : 0) | (ci->has_avx512vbmi ? 128 : 0));
+            for (int e = 0; e < 19; e++) { const void* p = carquet_verif_dispatch_entry(e); int tier = p ? 0 : 9; for (int k = 0; p && k < NKERN; k++) if ((const void*)KERNELS[k].fn == p) { tier = !strcmp(KERNELS[k].isa, "sse") ? 1 : !strcmp(KERNELS[k].isa, "avx2") ? 2 : !strcmp(KERNELS[k].isa, "avx512") ? 3 : 0; break; } rep[1 + e] = (unsigned char)tier; }
+            if (write(pfd[1], rep, 32) != 32) _exit(3); _exit(0); }
+        close(pfd[1]); unsigned char rep[32]; ssize_t got = read(pfd[0], rep, 32); close(pfd[0]); int st = 0; waitpid(pid, &st, 0);
+        if (got != 32 || !WIFEXITED(st) || WEXITSTATUS(st)) { mc_fail("select.child-died", "mask 0x%02x: the process that initialises the dispatcher died (status 0x%x)", mask, st); continue; }
+        if (rep[0] != (unsigned char)mask) mc_harness_error("CARQUET_VERIF_CPU_MASK=%x not applied: carquet_get_cpu_info reports 0x%02x (the host lacks a feature, or the hook is missing)", mask, rep[0]);
+        for (int e = 0; e < 19; e++) { int tier = rep[1 + e]; bool ok = tier == 0 || (tier == 1 && (mask & 2)) || (tier == 2 && (mask & 8)) || (tier == 3 && (mask & 16) && (mask & 32) && (mask & 64));
+            if (tier == 9) mc_fail("select.null-entry", "mask 0x%02x: dispatch entry %s is NULL", mask, EN[e]);
+            else if (!ok) { char key[96]; snprintf(key, sizeof key, "select.kernel-needs-features-the-cpu-lacks.%s-tier", tier == 1 ? "sse" : tier == 2 ? "avx2" : "avx512");
+                mc_fail(key, "capability set 0x%02x (sse42=%d avx=%d avx2=%d avx512f=%d bw=%d vl=%d): entry %s is the %s kernel, whose object is compiled for %s", mask, (mask >> 1) & 1, (mask >> 2) & 1, (mask >> 3) & 1, (mask >> 4) & 1, (mask >> 5) & 1, (mask >> 6) & 1, EN[e],
+                        tier == 1 ? "SSE" : tier == 2 ? "AVX2" : "AVX-512", tier == 1 ? "sse4.2" : tier == 2 ? "avx2" : "avx512f+avx512bw+avx512vl"); break; } }
+        mc_count("select.entries-identified", 19);
+    }
+}
+
 static void enumerate(void) {
+    if (!strcmp(mc_mode(), "select")) { select_mode(); return; }
     /* a previous child of this shard died inside a kernel: remember which one */
     if (HS->pending >= 0) { HS->crashes[HS->pending]++; HS->pending = -1; }
     static int inited;
@@ -630,8 +665,7 @@ static void enumerate(void) {
             "distinctness by (mode, kernel, count, pattern, sides, m0) key. kernel.calls counts individual kernel invocations.");
     mc_assume("domains: pack_bools inputs in {0,1}; gather indices < dictionary size (< 2^31); build_null_bitmap destination pre-zeroed (as its only caller does with calloc); "
               "match_copy is called with src == dst - offset, offset >= 1, inside one buffer; match_length may read match[0 .. limit-p) completely; memcpy buffers do not overlap");
-    mc_assume("the host CPU executes SSE4.2, AVX2+BMI2 and AVX-512F/BW/VL natively, so every variant is run directly; an AVX-512 kernel using BW/VL instructions behind "
-              "the dispatcher's avx512f-only test cannot be observed on this host");
+    mc_assume("the host CPU executes SSE4.2, AVX2+BMI2 and AVX-512F/BW/VL natively, so every variant is run directly; which variant the dispatcher installs for a capability set this host does not have is checked by address in mode select");
     if (DISPATCH) {
         const char* c = getenv("CARQUET_VERIF_CPU_CAP"); CAP = c ? c : "";
         cap_check();
